@@ -3257,6 +3257,7 @@ struct RegistryT<
 	struct BackUp final {
 		CompoForks compoRequested;
 		OrthoForks orthoRequested;
+		CompoRemains compoRemains;
 	};
 
 	HFSM2_CONSTEXPR(14)	Prong activeSubState		(const StateID stateId)	  const noexcept;
@@ -3575,6 +3576,7 @@ void
 RegistryT<ArgsT<TG_, TSL_, TRL_, NCC_, NOC_, NOU_, TRO_ HFSM2_IF_SERIALIZATION(, NSB_) HFSM2_IF_PLANS(, NTC_), TTP_>>::backup(BackUp& copy) const noexcept {
 	overwriteWith(copy.compoRequested, compoRequested);
 	overwriteWith(copy.orthoRequested, orthoRequested);
+	overwriteWith(copy.compoRemains  , compoRemains  );
 }
 
 template <typename TG_, typename TSL_, typename TRL_, Long NCC_, Long NOC_, Long NOU_, typename TRO_ HFSM2_IF_SERIALIZATION(, Long NSB_) HFSM2_IF_PLANS(, Long NTC_), typename TTP_>
@@ -3583,6 +3585,7 @@ void
 RegistryT<ArgsT<TG_, TSL_, TRL_, NCC_, NOC_, NOU_, TRO_ HFSM2_IF_SERIALIZATION(, NSB_) HFSM2_IF_PLANS(, NTC_), TTP_>>::restore(const BackUp& copy) noexcept {
 	overwriteWith(compoRequested, copy.compoRequested);
 	overwriteWith(orthoRequested, copy.orthoRequested);
+	overwriteWith(compoRemains  , copy.compoRemains  );
 }
 
 template <typename TG_, typename TSL_, typename TRL_, Long NCC_, Long NOC_, Long NOU_, typename TRO_ HFSM2_IF_SERIALIZATION(, Long NSB_) HFSM2_IF_PLANS(, Long NTC_), typename TTP_>
@@ -3590,7 +3593,8 @@ HFSM2_CONSTEXPR(11)
 bool
 RegistryT<ArgsT<TG_, TSL_, TRL_, NCC_, NOC_, NOU_, TRO_ HFSM2_IF_SERIALIZATION(, NSB_) HFSM2_IF_PLANS(, NTC_), TTP_>>::operator != (const BackUp& copy) const noexcept {
 	return compoRequested != copy.compoRequested
-		|| orthoRequested != copy.orthoRequested;
+		|| orthoRequested != copy.orthoRequested
+		|| compoRemains   != copy.compoRemains;
 }
 
 }
@@ -3649,6 +3653,7 @@ struct RegistryT<
 
 	struct BackUp final {
 		CompoForks compoRequested;
+		CompoRemains compoRemains;
 	};
 
 	HFSM2_CONSTEXPR(14)	Prong activeSubState	(const StateID stateId)	  const noexcept;
@@ -3903,6 +3908,7 @@ HFSM2_CONSTEXPR(14)
 void
 RegistryT<ArgsT<TG_, TSL_, TRL_, NCC_, 0, 0, TRO_ HFSM2_IF_SERIALIZATION(, NSB_) HFSM2_IF_PLANS(, NTC_), TTP_>>::backup(BackUp& copy) const noexcept {
 	overwriteWith(copy.compoRequested, compoRequested);
+	overwriteWith(copy.compoRemains  , compoRemains  );
 }
 
 template <typename TG_, typename TSL_, typename TRL_, Long NCC_, typename TRO_ HFSM2_IF_SERIALIZATION(, Long NSB_) HFSM2_IF_PLANS(, Long NTC_), typename TTP_>
@@ -3910,13 +3916,15 @@ HFSM2_CONSTEXPR(14)
 void
 RegistryT<ArgsT<TG_, TSL_, TRL_, NCC_, 0, 0, TRO_ HFSM2_IF_SERIALIZATION(, NSB_) HFSM2_IF_PLANS(, NTC_), TTP_>>::restore(const BackUp& copy) noexcept {
 	overwriteWith(compoRequested, copy.compoRequested);
+	overwriteWith(compoRemains  , copy.compoRemains  );
 }
 
 template <typename TG_, typename TSL_, typename TRL_, Long NCC_, typename TRO_ HFSM2_IF_SERIALIZATION(, Long NSB_) HFSM2_IF_PLANS(, Long NTC_), typename TTP_>
 HFSM2_CONSTEXPR(11)
 bool
 RegistryT<ArgsT<TG_, TSL_, TRL_, NCC_, 0, 0, TRO_ HFSM2_IF_SERIALIZATION(, NSB_) HFSM2_IF_PLANS(, NTC_), TTP_>>::operator != (const BackUp& copy) const noexcept {
-	return compoRequested != copy.compoRequested;
+	return compoRequested != copy.compoRequested
+		|| compoRemains   != copy.compoRemains;
 }
 
 }
